@@ -5,7 +5,8 @@ import os
 
 HERE = os.path.dirname(os.path.dirname(os.path.abspath(__file__)))
 
-TRUST = ('Trusted base: CPython ast (same grammar as the project interpreter), the hand-written RFC 4880/6637 templates in '
+TRUST = ('Trusted base: CPython ast (same grammar as the project interpreter), the semantics-preserving canonicaliser sa/canon.py '
+         '(each rewrite listed in its header; guarded both ways by the twin and mutant corpora), the hand-written RFC 4880/6637 templates in '
          '/verif/sa (auditable, each cites its section), the axioms echoed in the evidence file, and the correctness of '
          'cryptography / zlib / bz2 / base64 / hashlib / pyasn1, which are never analysed.')
 
@@ -63,16 +64,12 @@ P = {
     technique='codec-pair extraction (reader sequence vs writer byte terms) over the class table',
     ref='5/C08'),
  'C09': dict(
-    text='Decides agreement between the sites that must share a constant or dependency: new-format thresholds in encoder/decoder/width '
-         'selector, declared width depends on the value in both header formats, MPI and S2K-count expression shapes, UTC-correct timestamp '
-         'idiom at every datetime->4 octets site, subpacket header octet. Does not decide arithmetic exactness over the value domain.',
-    technique='sibling-constant agreement and expression-shape checks on the AST; data-dependence of llen on length',
+    text='Decides the numeric field codecs at the RFC 4880 boundary points: a checker-side evaluator (constant propagation over the canonicalised AST; the repository is never imported or run) evaluates the new/old-format length encoder and decoder, declared widths, partial-length chains, MPI bit counts, the S2K count codec, the subpacket header and the tag octet at every boundary value and compares values and octets consumed with the RFC formulas; every datetime<->4-octet site is classified by the value that reaches the conversion (UTC-correct idioms only). Finite points, not the whole value domain; DESIGN.md 10.8 states the scope and limits of this evaluation-based part.',
+    technique='checker-side constant evaluation (partial evaluation with all inputs bound) of small pure codec functions at RFC boundary points; idiom classification on interpreter values',
     ref='5/C09'),
  'C10': dict(
-    text='Decides the CRC-24 constants and loop structure against RFC 4880 6.1, that payload and CRC derive from the same octets with a '
-         '3-octet CRC, line width <= 76 and <= the reader bound, block labels per object kind, kind checks with the right polarity before any '
-         'packet is consumed, and that a CRC mismatch is reported.',
-    technique='constant/structure tables, regex-AST facts (re._parser), guard polarity',
+    text='Decides CRC-24 by folding crc24 on every one-octet input and on register boundary states against the RFC 4880 6.1 algorithm; the armor writer as a piece sequence (payload and CRC derive from the same binary export, CRC written as exactly three octets, same label in BEGIN and END, labels per object kind); reader/writer agreement as regular-language inclusion and equality (line width <= 76 and within the reader bound, crc group, header separator); kind checks by evaluating the label condition for each real and look-alike label before anything is consumed; and that a CRC mismatch is reported (polarity and reaction on path facts).',
+    technique='string-term piece sequences from interpreter values; regular languages (finite automata from re._parser trees) for reader/writer agreement; guard polarity on path facts; constant folding of crc24',
     ref='5/C10'),
  'C11': dict(
     text='Decides that dash-escape/unescape are an inverse regex pair applied exactly once each, the Hash: header alphabet is accepted by '
@@ -81,10 +78,8 @@ P = {
     technique='regex-AST facts; call-count on interpreter paths; provenance of the signed text',
     ref='5/C11'),
  'C12': dict(
-    text='Decides the structure of String2Key.derive_key as hash-input terms: salt before passphrase, salt only for salted specifiers, '
-         'count = max(decoded count, one full copy), context i preloaded with i zero octets, digests joined in order and truncated to the key '
-         'size, ceil context count, coded-count formula. Not digest equality.',
-    technique='abstract interpretation with hasher tracking; expression-shape checks',
+    text='Decides String2Key.derive_key as hash-input terms (salt before passphrase, salt only for salted specifiers, context i preloaded with i zero octets, digests joined in order and truncated to the key size) and compares the values of its index/length expressions (copies of the salt+passphrase unit, leading part, context count = ceil(key bits / digest bits)) with RFC 4880 3.7.1 on a grid of samples restricted per path; the coded-count codec is folded over all 256 values; the specifier codec is checked field by field. Not digest equality.',
+    technique='abstract interpretation with hasher tracking; value comparison of extracted expressions on a finite sample grid; constant folding of the count codec',
     ref='5/C12'),
  'C13': dict(
     text='Decides that every secret random value (session key, SEIPD prefix, SKESK salt, key-protection IV and salt, ECDH ephemeral key) is '
